@@ -1196,6 +1196,146 @@ pub fn script_bytes(c: &HCase) -> usize {
     c.udp.iter().flatten().map(|d| d.len() / 2).sum::<usize>() + c.udp_at_open.iter().map(|d| d.len() / 2).sum::<usize>() + c.tcp.iter().map(|t| t.data.len() / 2).sum::<usize>()
 }
 
+
+/// Bounded-exhaustive scripts over the fragment index fields of the multi-datagram families: every sequence of up to
+/// 3-4 datagrams whose index / count / last-flag fields are drawn from a small alphabet (in range, one past, far past,
+/// flagged, repeated), around otherwise valid payloads. Random byte mutations reach these shapes too rarely.
+pub fn index_field_cases(shard: usize, nshards: usize) -> Vec<HCase> {
+    let mut out = Vec::new();
+    let mut n = 0usize;
+    let mut push = |c: HCase, out: &mut Vec<HCase>| {
+        if n % nshards.max(1) == shard {
+            out.push(c);
+        }
+        n += 1;
+    };
+    fn sequences(alphabet: usize, max_len: usize) -> Vec<Vec<usize>> {
+        let mut all: Vec<Vec<usize>> = Vec::new();
+        let mut level: Vec<Vec<usize>> = vec![vec![]];
+        for _ in 0 .. max_len {
+            let mut next = Vec::new();
+            for s in &level {
+                for a in 0 .. alphabet {
+                    let mut t = s.clone();
+                    t.push(a);
+                    next.push(t);
+                }
+            }
+            all.extend(next.iter().cloned());
+            level = next;
+        }
+        all
+    }
+    // GameSpy 3: the id byte (packet number, bit 7 = last)
+    {
+        let mut runner = proptest::test_runner::TestRunner::deterministic();
+        let st = loop {
+            let st = proptest::strategy::ValueTree::current(&gs3_state().new_tree(&mut runner).unwrap());
+            if st.payloads().len() >= 2 {
+                break st;
+            }
+        };
+        let payloads = st.payloads();
+        let ids: [u8; 12] = [0, 1, 2, 3, 4, 0x7F, 0x80, 0x81, 0x82, 0x83, 0x84, 0xFF];
+        for seq in sequences(ids.len(), 4) {
+            let frags: Vec<String> = seq
+                .iter()
+                .map(|a| {
+                    let id = ids[*a];
+                    let mut d = vec![0x00, 0x00, 0x00, 0x00, 0x01];
+                    d.extend_from_slice(b"splitnum\0");
+                    d.push(id);
+                    d.push(if id & 0x7F == 0 { 0 } else { 1 });
+                    d.extend_from_slice(&payloads[(id & 0x7F) as usize % payloads.len()]);
+                    hex(&d)
+                })
+                .collect();
+            let entry = if seq.len() < 4 && seq.len() % 2 == 0 { Entry::Gs3Vars } else { Entry::Gs3 };
+            push(
+                HCase { entry, retries: 0, udp_at_open: vec![], udp: vec![vec![hex(&crate::models::gamespy::gs3_handshake_reply(0))], frags], tcp: vec![], source: "index-fields:gs3".into() },
+                &mut out,
+            );
+        }
+    }
+    // Valve split replies: (total, number) of the Source form, the packed nibbles of the GoldSrc form
+    {
+        let info = b"\xFF\xFF\xFF\xFF\x49\x11name\0map\0folder\0game\0\x0a\x00\x01\x10\x00dl\x00\x00v1\0".to_vec();
+        let parts: Vec<&[u8]> = info.chunks(info.len().div_ceil(3)).collect();
+        let vals: [u8; 5] = [0, 1, 2, 3, 0xFF];
+        for seq in sequences(25, 3) {
+            let frags: Vec<String> = seq
+                .iter()
+                .map(|a| {
+                    let (total, number) = (vals[a / 5], vals[a % 5]);
+                    let mut d = vec![0xFE, 0xFF, 0xFF, 0xFF, 7, 0, 0, 0, total, number];
+                    d.extend_from_slice(&1248u16.to_le_bytes());
+                    d.extend_from_slice(parts[number as usize % parts.len()]);
+                    hex(&d)
+                })
+                .collect();
+            push(
+                HCase {
+                    entry: Entry::Valve { engine: crate::models::valve::EngineSel::SourceNone, players: 0, rules: 0, check: false },
+                    retries: 0,
+                    udp_at_open: vec![],
+                    udp: vec![frags],
+                    tcp: vec![],
+                    source: "index-fields:valve-source".into(),
+                },
+                &mut out,
+            );
+        }
+        let packed: [u8; 14] = [0x00, 0x01, 0x02, 0x03, 0x10, 0x11, 0x12, 0x13, 0x22, 0x23, 0x33, 0x0F, 0xF0, 0xFF];
+        for seq in sequences(packed.len(), 3) {
+            let frags: Vec<String> = seq
+                .iter()
+                .map(|a| {
+                    let b = packed[*a];
+                    let mut d = vec![0xFE, 0xFF, 0xFF, 0xFF, 7, 0, 0, 0, b];
+                    d.extend_from_slice(parts[(b >> 4) as usize % parts.len()]);
+                    hex(&d)
+                })
+                .collect();
+            push(
+                HCase {
+                    entry: Entry::Valve { engine: crate::models::valve::EngineSel::GoldSrc(false), players: 0, rules: 0, check: false },
+                    retries: 0,
+                    udp_at_open: vec![],
+                    udp: vec![frags],
+                    tcp: vec![],
+                    source: "index-fields:valve-goldsrc".into(),
+                },
+                &mut out,
+            );
+        }
+    }
+    // GameSpy 1: the part number of `queryid` and the `final` marker
+    {
+        let texts = ["\\hostname\\h\\hostport\\7777\\mapname\\m\\gametype\\g\\numplayers\\1\\maxplayers\\4\\gamever\\1", "\\player_0\\a\\frags_0\\1\\ping_0\\5", "\\team_0\\0\\mesh_0\\x"];
+        // (part text, final)
+        let tails: [(&str, bool); 12] =
+            [(".0", false), (".1", false), (".2", false), (".3", false), (".4", false), ("", false), (".0", true), (".1", true), (".2", true), (".3", true), (".99999", true), ("", true)];
+        for seq in sequences(tails.len(), 4) {
+            let frags: Vec<String> = seq
+                .iter()
+                .enumerate()
+                .map(|(k, a)| {
+                    let (part, fin) = tails[*a];
+                    let mut t = texts[k % texts.len()].to_string();
+                    if fin {
+                        t.push_str("\\final\\");
+                    }
+                    t.push_str(&format!("\\queryid\\7{part}"));
+                    hex(t.as_bytes())
+                })
+                .collect();
+            let entry = if seq.len() % 2 == 0 { Entry::Gs1Vars } else { Entry::Gs1 };
+            push(HCase { entry, retries: 0, udp_at_open: vec![], udp: vec![frags], tcp: vec![], source: "index-fields:gs1".into() }, &mut out);
+        }
+    }
+    out
+}
+
 pub struct C01;
 
 impl Prop for C01 {
@@ -1215,7 +1355,9 @@ impl Prop for C01 {
          by extreme tokens, truncation / overwrite / insertion of raw bytes; or HTTP magic plus random bytes). Scripts: (1) a valid \
          exchange recorded against the reference servers and then mutated 1-4 times (truncate at any byte, overwrite bytes / u16 / u32 with extreme values in either byte \
          order, delete / insert bytes, drop a NUL terminator, duplicate / drop / swap / splice datagrams, empty and 64 KiB datagrams, challenge storms, pre-queued replies, \
-         unclosed / refused TCP), (2) protocol magic followed by random bytes, (3) pure random datagrams and streams; retries 0-2. Oracle: the call returns Ok or Err; a \
+         unclosed / refused TCP), (2) protocol magic followed by random bytes, (3) pure random datagrams and streams; retries 0-2; (4) enumerated: every sequence of up to 3-4 datagrams whose \
+         fragment index fields (GameSpy 3 id byte, Valve Source total/number, GoldSrc packed nibbles, GameSpy 1 queryid part and final marker) come from a small \
+         alphabet of in-range, one-past, far-past, flagged and repeated values. Oracle: the call returns Ok or Err; a \
          panic (including arithmetic overflow: the build has overflow checks on), more than 100000 transport operations in one query, or a case that does not return \
          (watchdog, confirmed in a fresh process) is a violation. non-trivial = the client received at least one non-empty reply; distinct = digest of (entry, script)"
             .into()
@@ -1231,6 +1373,8 @@ impl Prop for C01 {
     fn random_cases(&self, tier: Tier) -> u64 { tier.pick(300_000, 12_000_000) }
 
     fn strategy(&self, _tier: Tier) -> BoxedStrategy<HCase> { hcase(false) }
+
+    fn enumerated<'a>(&'a self, _tier: Tier, shard: usize, nshards: usize) -> Box<dyn Iterator<Item = HCase> + 'a> { Box::new(index_field_cases(shard, nshards).into_iter()) }
 
     fn run(&self, case: &HCase) -> Outcome {
         let run = run_hostile(case);
@@ -1300,8 +1444,9 @@ impl Prop for C13 {
     fn strategy(&self, _tier: Tier) -> BoxedStrategy<HCase> { hcase(true) }
 
     fn enumerated<'a>(&'a self, _tier: Tier, shard: usize, _nshards: usize) -> Box<dyn Iterator<Item = HCase> + 'a> {
+        let indexed = index_field_cases(shard, _nshards);
         if shard != 0 {
-            return Box::new(std::iter::empty());
+            return Box::new(indexed.into_iter());
         }
         // decompression: declared sizes and real bzip2 bombs in a compressed split reply to the players request
         let info = b"\xFF\xFF\xFF\xFF\x49\x11name\0map\0folder\0game\0\x0a\x00\x01\x10\x00dl\x00\x00v1\0".to_vec();
@@ -1380,6 +1525,7 @@ impl Prop for C13 {
                 }
             }
         }
+        out.extend(indexed);
         Box::new(out.into_iter())
     }
 
